@@ -986,6 +986,17 @@ func ruleOrder(c *Ctx, r *Rep) {
 		return a.owner == b.owner && instrDominates(a.call, b.call)
 	}
 	r.Check(before(put, gen) && before(gen, putArt), "per-change-order|"+bk, c.Pos(gen.site.Pos()), "store configuration, then generate, then store the artifact", "dominance checked")
+	// the plan is carried out in one pass: the planner lists an issuer before what it signs, so the list's order is
+	// the order of generation. Two passes (or a pass per kind) generate a new subject before its replaced issuer.
+	{
+		depth := 0
+		for _, body := range naturalLoops(bulk) {
+			if body[gen.site.Block()] {
+				depth++
+			}
+		}
+		r.Check(depth == 1, "single-pass|"+bk, c.Pos(gen.site.Pos()), "the generation step sits in exactly one loop of BulkUpdate (one pass over the plan, in the plan's order)", sprintf("nested in %d loops", depth))
+	}
 	// all three for the same change of the list, in list order
 	elem := "P(" + bk + "." + bulk.Params[1].Name() + ")[]"
 	aliasOrigin := func(st *step, argIdx int) []string {
